@@ -2,7 +2,7 @@
 from . import _scn
 from ..core import hx
 ID = "C06"
-PROPS = ["F1Verif.Props.C06", "F1Verif.Props.FactsC06", "F1Verif.Props.C06Do"]
+PROPS = ["F1Verif.Props.C06", "F1Verif.Props.FactsC06", "F1Verif.Props.C06Do", "F1Verif.Props.C06DoGen"]
 ALSO = ["F1Verif.Props.Handle"]
 RULE = ("engine A (component level): generated scenario programs — where setup, bodies and cleanups register cleanups, "
         "fail or panic (every failure API, five panic kinds, panics mid-stack, cleanups that register cleanups) — are "
@@ -83,5 +83,5 @@ def distribution(recs):
 
 MANIFEST = {
  "text": "Interpreter model of testing.T / ActiveScenario / CombineScenarios over scenario programs as data; theorems for every program: per-iteration cleanups run exactly once in reverse registration order whatever the body and the cleanups do (C06_iter_cleanups, C06_cleanup_panic_contained), after the body and before the worker's next iteration (C06_before_next), setup once first (C06_setup_once_first), failed setup => no iteration and failed run (C06_setup_failure), setup cleanups once, reversed, after every iteration, failure reported (C06_teardown_last). Proof by structural induction on action lists and cleanup stacks (closed form exec_spec). Tie: generated programs run as real closures, event log compared with the interpreter and checked by the monitor.",
- "note": "Component level (one worker's history); the placement inside Run.Do is proved on Do as a program with defer semantics (Props/C06Do: both executions spelt out, setup once before the iterations, teardown once after run() has returned and before the summary); how run() itself ends is C05's Deadline model; both are tied by regenerated source facts and whole runs. Cleanups assumed to terminate.",
+ "note": "Component level (one worker's history); the placement inside Run.Do is proved on Do as a program with defer semantics (Props/C06Do: both executions spelt out, setup once before the iterations, teardown once after run() has returned and before the summary); how run() itself ends is C05's Deadline model; the same clauses are re-proved on every run on `Generated.doBody`, which a translator in /verif/facts regenerates from the statement list of Run.Do (Props/C06DoGen) — a harmless edit of Do keeps passing, a misplaced teardown does not; whole runs tie the rest. Cleanups assumed to terminate.",
  "technique": "Lean 4 theorems by structural induction over scenario programs + event-log correspondence with the real handle"}
